@@ -4035,7 +4035,7 @@ def skipping_module(
     assert caller_state, (id, path)
     save_import_context = manager.errors.import_context()
     manager.errors.set_import_context(caller_state.import_context)
-    manager.errors.set_file(caller_state.xpath, caller_state.id, manager.options)
+    manager.errors.set_file(caller_state.xpath, caller_state.id, caller_state.options)
     manager.error(line, f'Import of "{id}" ignored')
     manager.note(
         line, "(Using --follow-imports=error, module not passed on command line)", only_once=True
@@ -4051,7 +4051,7 @@ def skipping_ancestor(manager: BuildManager, id: str, path: str, ancestor_for: S
     # so we'd need to cache the decision.
     save_import_context = manager.errors.import_context()
     manager.errors.set_import_context([])
-    manager.errors.set_file(ancestor_for.xpath, ancestor_for.id, manager.options)
+    manager.errors.set_file(ancestor_for.xpath, ancestor_for.id, ancestor_for.options)
     manager.error(None, f'Ancestor package "{id}" ignored', only_once=True)
     manager.note(
         None, "(Using --follow-imports=error, submodule passed on command line)", only_once=True
